@@ -29,7 +29,7 @@ func main() {
 	logger := zap.NewNop()
 
 	srv := server.NewServer()
-	handler := protocol.ServerHandler(newServerDispatcher(srv), nil)
+	handler := didChangeHandler(srv, protocol.ServerHandler(newServerDispatcher(srv), nil))
 
 	stream := jsonrpc2.NewStream(stdrwc{})
 	conn := jsonrpc2.NewConn(stream)
@@ -42,6 +42,25 @@ func main() {
 
 	if err := conn.Err(); err != nil {
 		os.Exit(1)
+	}
+}
+
+// didChangeHandler handles textDocument/didChange before the protocol
+// library does. The library decodes the notification into a struct whose Range
+// is not a pointer, so a change without range (replace the whole document) and
+// an insertion at line 0, character 0 look the same afterwards, and typing at
+// the very start of a document used to replace the whole document. Decode the
+// notification here, with an optional range.
+func didChangeHandler(srv *server.Server, next jsonrpc2.Handler) jsonrpc2.Handler {
+	return func(ctx context.Context, reply jsonrpc2.Replier, req jsonrpc2.Request) error {
+		if req.Method() != protocol.MethodTextDocumentDidChange {
+			return next(ctx, reply, req)
+		}
+		var params server.DidChangeParams
+		if err := json.Unmarshal(req.Params(), &params); err != nil {
+			return reply(ctx, nil, fmt.Errorf("%w: %s", jsonrpc2.ErrParse, err))
+		}
+		return reply(ctx, nil, srv.DidChangeDocument(ctx, &params))
 	}
 }
 
